@@ -3,6 +3,7 @@ package main
 import (
 	"fmt"
 	"strings"
+	"time"
 	"unicode"
 
 	"github.com/bufbuild/buf/private/bufpkg/bufconfig"
@@ -30,6 +31,11 @@ type plantT struct {
 	ord  int    // ordinal among the plants of the same operator at the same element
 	// double: the operator applied at an element AND at its twin in a copied package
 	double bool
+	// pos: "<list kind>:<position class>" — where the planted element sits in the list the iteration
+	// helper walks (position.go); "" for operators that are not about one element of a list
+	pos string
+	// tags: further strata of the enum family (closedness of the enum, nesting depth)
+	tags []string
 }
 
 func (p plantT) stratum() string { return p.op + "@" + p.kind }
@@ -375,9 +381,18 @@ func enumeratePlants(w *wsT, o lintOpts, r *hx.Rand, info *collInfo) []plantT {
 		pathToFile[f.path] = i
 	}
 	ords := map[string]int{}
+	sibs := map[int]map[string]int{}
+	tgts := targets(w)
+	filePos := map[int]string{}
+	for k, fi := range tgts {
+		filePos[fi] = "file:" + posClass(k, len(tgts))
+	}
+	posOv := ""       // position of the planted element when it cannot be read off `at` (reset by add)
+	var tags []string // further strata (reset by add)
 	add := func(op, at, cat string, mutate func(c *wsT) []expT) {
-		p := plantT{op: op, kind: kind, twin: twin, at: at, mutate: mutate, cat: cat, fi: -1,
-			single: strings.HasPrefix(op, "PACKAGE_SAME_<OPTION>/") || op == "PACKAGE_VERSION_SUFFIX/near-miss" || op == "PACKAGE_VERSION_SUFFIX/respelled"}
+		p := plantT{op: op, kind: kind, twin: twin, at: at, mutate: mutate, cat: cat, fi: -1, tags: tags,
+			single: strings.HasPrefix(op, "PACKAGE_SAME_<OPTION>/") || op == "PACKAGE_VERSION_SUFFIX/near-miss" || op == "PACKAGE_VERSION_SUFFIX/respelled" ||
+				strings.HasSuffix(op, "/family") || strings.HasSuffix(op, "/family-silent")}
 		if i := strings.LastIndex(at, ":"); i >= 0 {
 			if fi, ok := pathToFile[at[:i]]; ok {
 				p.fi, p.ep = fi, at[i+1:]
@@ -385,6 +400,18 @@ func enumeratePlants(w *wsT, o lintOpts, r *hx.Rand, info *collInfo) []plantT {
 		} else if fi, ok := pathToFile[at]; ok {
 			p.fi = fi
 		}
+		switch {
+		case posOv != "":
+			p.pos = posOv
+		case p.fi >= 0 && p.ep != "":
+			if sibs[p.fi] == nil {
+				sibs[p.fi] = sibCounts(w.files[p.fi])
+			}
+			p.pos = elementPos(sibs[p.fi], p.ep)
+		case p.fi >= 0:
+			p.pos = filePos[p.fi] // a file-level operator: the file among the target files (generation order)
+		}
+		posOv, tags = "", nil
 		p.ord = ords[op+"\x00"+at]
 		ords[op+"\x00"+at]++
 		if p.twin == "" {
@@ -652,6 +679,14 @@ func enumeratePlants(w *wsT, o lintOpts, r *hx.Rand, info *collInfo) []plantT {
 					})
 				}
 			}
+			// the declaration-order / alias family (position.go): the whole value list is replaced
+			if info == nil {
+				twin = ""
+				enumFamilyPlants(w, o, fi, p, nested, e, enumKind, get, pickBad, func(op, k, at, cat, pv string, tg []string, mutate func(c *wsT) []expT) {
+					kind, posOv, tags = k, pv, tg
+					add(op, at, cat, mutate)
+				})
+			}
 		})
 
 		// ---- services and RPCs ----
@@ -870,8 +905,11 @@ func enumeratePlants(w *wsT, o lintOpts, r *hx.Rand, info *collInfo) []plantT {
 						}
 						add("RPC_REQUEST_RESPONSE_UNIQUE/reuse", f.path+":"+mp, "STANDARD", func(c *wsT) []expT {
 							c.files[fi].svcs[si].rpcs[mi].in = other.in
-							return []expT{{"RPC_REQUEST_RESPONSE_UNIQUE", f.path, mp}, {"RPC_REQUEST_RESPONSE_UNIQUE", f.path, pk(pk("6", sj), 2, mj)},
-								{"RPC_REQUEST_STANDARD_NAME", f.path, mp + ".2"}}
+							// the borrowed type is not named after this RPC — unless the other RPC has the SAME name
+							// in another service (name-collision workspaces): `<Rpc>Request` is then a standard name
+							// here as well (stdNameDoc: the documentation of RPC_REQUEST_STANDARD_NAME)
+							return append([]expT{{"RPC_REQUEST_RESPONSE_UNIQUE", f.path, mp}, {"RPC_REQUEST_RESPONSE_UNIQUE", f.path, pk(pk("6", sj), 2, mj)}},
+								stdNameDoc(c, o, fi, si, mi)...)
 						})
 					}
 				}
@@ -915,6 +953,7 @@ func enumeratePlants(w *wsT, o lintOpts, r *hx.Rand, info *collInfo) []plantT {
 			})
 		}
 		kind = "file-" + f.syntax
+		posOv = "import:" + posClass(len(f.imports), len(f.imports)+1) // the unused import is appended
 		add("IMPORT_USED", f.path, "BASIC", func(c *wsT) []expT {
 			for _, i := range f.imports {
 				if i.file < 0 && i.wkt == "google/protobuf/timestamp.proto" {
@@ -1338,46 +1377,109 @@ func catUse(cat string, v bufconfig.FileVersion) []string {
 	return []string{alts[len(alts)-1]}
 }
 
+// budgets of the quick tier: plants per regular workspace, plants on the wide workspace;
+// PROTOVALIDATE on every pvEvery-th plant
+const (
+	regularQuick = 92
+	wideQuick    = 70
+	pvEvery      = 16
+)
+
 // strataDone counts, over the whole run, how many plants of every stratum (operator @ element
 // kind) were executed: the per-workspace budget goes to the least covered strata first, so every
 // operator reaches every kind of element it applies to.
 var strataDone = map[string]int{}
 
-func selectPlants(plants []plantT, limit int, r *hx.Rand) []plantT {
-	return selectPlantsBy(plants, limit, r, plantT.stratum)
-}
-
-func selectPlantsBy(plants []plantT, limit int, r *hx.Rand, stratum func(plantT) string) []plantT {
+// selectPlants: `limit` plants of one workspace.  First one plant of every operator (the enum-family
+// operators excepted: they are many variations of one edit) — the one that covers most strata no plant
+// of this run has covered yet —, then greedily the plant that covers most uncovered strata of either
+// stratification: (operator, element kind) and (rule, list kind, position class) / family tags
+// (position.go); ties: the least covered strata in total, then the shuffled order.
+func selectPlants(plants []plantT, limit int, r *hx.Rand, perOperator bool) []plantT {
 	if len(plants) <= limit {
 		for _, p := range plants {
-			strataDone[stratum(p)]++
+			countStrata(p, plantT.stratum)
 		}
 		return plants
 	}
 	hx.Shuffle(r, plants)
+	// strata as small integers, their coverage so far in a slice (the selection loop is hot)
+	ids := map[string]int{}
+	var done []int
+	var names []string
+	keys := make([][]int, len(plants))
+	for i, p := range plants {
+		for _, k := range append([]string{p.stratum()}, p.strata2()...) {
+			id, ok := ids[k]
+			if !ok {
+				id = len(done)
+				ids[k] = id
+				done = append(done, strataDone[k])
+				names = append(names, k)
+			}
+			keys[i] = append(keys[i], id)
+		}
+	}
 	taken := make([]bool, len(plants))
 	var keep []plantT
 	take := func(i int) {
 		taken[i] = true
 		keep = append(keep, plants[i])
-		strataDone[stratum(plants[i])]++
-	}
-	// at least one plant of every operator in every workspace
-	seen := map[string]bool{}
-	for i, p := range plants {
-		if !seen[p.op] {
-			seen[p.op] = true
-			take(i)
+		for _, id := range keys[i] {
+			done[id]++
+			strataDone[names[id]]++
 		}
 	}
-	// then the least covered stratum first (ties: shuffled order)
-	for len(keep) < limit {
-		best := -1
-		for i, p := range plants {
-			if !taken[i] && (best < 0 || strataDone[stratum(p)] < strataDone[stratum(plants[best])]) {
-				best = i
+	gain := func(i int) (uncovered, sum int) {
+		for _, id := range keys[i] {
+			d := done[id]
+			if d == 0 {
+				uncovered++
 			}
+			sum += d
 		}
+		return
+	}
+	// pick: the plant that covers most uncovered strata; the average coverage decides between plants
+	// that open equally many
+	pick := func(cands func(yield func(i int))) int {
+		best, ub, sb := -1, 0, 0
+		cands(func(i int) {
+			ui, si := gain(i)
+			if best < 0 || ui > ub || (ui == ub && si*len(keys[best]) < sb*len(keys[i])) {
+				best, ub, sb = i, ui, si
+			}
+		})
+		return best
+	}
+	if perOperator {
+		var ops []string
+		byOp := map[string][]int{}
+		for i, p := range plants {
+			if strings.Contains(p.op, "/family") {
+				continue
+			}
+			if byOp[p.op] == nil {
+				ops = append(ops, p.op)
+			}
+			byOp[p.op] = append(byOp[p.op], i)
+		}
+		for _, op := range ops {
+			take(pick(func(yield func(i int)) {
+				for _, i := range byOp[op] {
+					yield(i)
+				}
+			}))
+		}
+	}
+	for len(keep) < limit {
+		best := pick(func(yield func(i int)) {
+			for i := range plants {
+				if !taken[i] {
+					yield(i)
+				}
+			}
+		})
 		if best < 0 {
 			break
 		}
@@ -1428,19 +1530,33 @@ func selectCollision(plants []plantT, limit int, r *hx.Rand) []plantT {
 		}
 		taken[best] = true
 		keep = append(keep, plants[best])
-		strataDone[plants[best].twinStratum()]++
+		countStrata(plants[best], plantT.twinStratum)
 	}
 	return keep
 }
 
-func plantAll(run *hx.Run, l *linter, r *hx.Rand, w *wsT, o lintOpts, wi int, replay string, info *collInfo) {
+func plantAll(run *hx.Run, l *linter, r *hx.Rand, w *wsT, o lintOpts, wi int, replay string, info *collInfo, wide bool) {
+	// the documentation-level enum oracle and the generator must agree that a generated workspace is clean
+	if exp := enumDoc(w, o); len(exp) > 0 {
+		run.Fail(hx.OracleFailure{Class: "c05-harness-generated-enum-not-clean", What: fmt.Sprintf("workspace %d: the generator's enum owes %v by the rule documentation", wi, exp[0]),
+			Input: textsOf(w), Replay: replay})
+		return
+	}
+	t0 := time.Now()
 	plants := enumeratePlants(w, o, r, info)
+	since(t0, &tEnum)
+	t0 = time.Now()
 	run.CountN("B:plants:enumerated", len(plants))
+	for _, p := range plants {
+		for _, s := range p.strata2() {
+			run.CountN("P:stratum-available:"+s[2:], 1)
+		}
+	}
 	if info == nil {
 		for _, p := range plants {
 			run.CountN("B:stratum-available:"+p.stratum(), 1)
 		}
-		plants = selectPlants(plants, run.N(94, 250), r)
+		plants = selectPlants(plants, run.N(map[bool]int{false: regularQuick, true: wideQuick}[wide], map[bool]int{false: 240, true: 160}[wide]), r, !wide)
 	} else {
 		// name-collision workspace: every operator once, then the least covered (operator, twin class)
 		// first; then the same operator at both twins, the least covered operator first
@@ -1465,8 +1581,12 @@ func plantAll(run *hx.Run, l *linter, r *hx.Rand, w *wsT, o lintOpts, wi int, re
 			nd++
 		}
 	}
+	since(t0, &tSelect)
 	for pi, p := range plants {
-		what := fmt.Sprintf("workspace %d, plant %s at %s (%s)", wi, p.op, p.at, p.kind)
+		what := fmt.Sprintf("workspace %d, plant %s at %s (%s; position %s)", wi, p.op, p.at, p.kind, p.pos)
+		if wide {
+			what = "wide " + what
+		}
 		if info != nil {
 			what = fmt.Sprintf("name-collision workspace %d, plant %s at %s (%s; same name elsewhere: %s)", wi, p.op, p.at, p.kind, p.twin)
 		}
@@ -1491,6 +1611,9 @@ func plantAll(run *hx.Run, l *linter, r *hx.Rand, w *wsT, o lintOpts, wi int, re
 			continue
 		}
 		run.Count("B:plant:" + p.op)
+		for _, s := range p.strata2() {
+			run.Count("P:stratum:" + s[2:])
+		}
 		if info == nil {
 			run.Count("B:stratum:" + p.stratum())
 		} else if p.double {
@@ -1499,13 +1622,13 @@ func plantAll(run *hx.Run, l *linter, r *hx.Rand, w *wsT, o lintOpts, wi int, re
 			run.Count("C:stratum:" + p.op + "@" + p.twin)
 		}
 		v := versions[(wi+pi)%3]
-		// PROTOVALIDATE (CEL set-up, ~65 ms per call) stays enabled on every eighth plant only
+		// PROTOVALIDATE (CEL set-up, ~65 ms per call) stays enabled on every pvEvery-th plant only
 		var except []string
-		if pi%8 != 0 && v != bufconfig.FileVersionV1Beta1 {
+		if pi%pvEvery != 0 && v != bufconfig.FileVersionV1Beta1 {
 			except = []string{"PROTOVALIDATE"}
 		}
-		// name-collision workspaces (10 files): ONE configuration per plant in the quick tier
-		single := p.single || (info != nil && run.Tier == "quick")
+		// name-collision and wide workspaces (10 / 15 files): ONE configuration per plant in the quick tier
+		single := p.single || ((info != nil || wide) && run.Tier == "quick")
 		if !single || pi%2 == 0 {
 			judge(run, l, pw, b, lintCfg{v, allUse(v), o, except}, what, expect, replay)
 		}
@@ -1514,7 +1637,7 @@ func plantAll(run *hx.Run, l *linter, r *hx.Rand, w *wsT, o lintOpts, wi int, re
 		}
 		v2 := versions[(wi+pi+1)%3]
 		except = nil
-		if strings.Contains(p.cat, "STANDARD") && v2 != bufconfig.FileVersionV1Beta1 && pi%8 != 1 {
+		if strings.Contains(p.cat, "STANDARD") && v2 != bufconfig.FileVersionV1Beta1 && pi%pvEvery != 1 {
 			except = []string{"PROTOVALIDATE"}
 		}
 		judge(run, l, pw, b, lintCfg{v2, catUse(p.cat, v2), o, except}, what, expect, replay)
